@@ -7,6 +7,10 @@ For databases of `vlib/props/c16.py` (`make_case`: GenDB + a valid compressed pr
      and `appArgs` when the database has no `app-is-pattern`;
   2. the GENERATED converter (`Pi2/Gen/MMConv.lean`, driver command `mmconv`) is compared with the REAL `MetamathConverter`
      (harness command `mmconvdump`) on every query `translate.py` makes (differential test of the translator).
+  3. the shape predicate `MM.ConvSpec.FragmentShape` (Pi2/MM/ConvShape.lean; the only hypothesis of
+     `C16.converter_text_is_the_model_of_shape` / `C16.translation_text_is_the_model_of_shape`) and the run-time fragment
+     `ConvTie.InFragmentX` (which `ConvCoh.inFragmentX_of_shape` derives from it) are evaluated on every generated database: a
+     database on which one of them is false is a finding.
 Also run on a few hand-written databases outside GenDB's habits (see `EXTRA`)."""
 from __future__ import annotations
 
@@ -89,6 +93,9 @@ def compare(cases, extra=()):
         if not c['db'].with_app:
             wdb[3] = x[1][3]
         frag = x[-2]
+        if x[-3] != ['shape', 'true']:
+            findings.append({'key': 'not-in-shape', 'database': s[-1500:], 'shape': str(x[-3]),
+                             'what': 'a generated database does not satisfy MM.ConvSpec.FragmentShape (hypothesis of converter_text_is_the_model_of_shape / translation_text_is_the_model_of_shape)'})
         if frag[:2] != ['frag', 'true']:
             findings.append({'key': 'not-in-fragment', 'database': s[-1500:], 'frag': str(frag),
                              'what': 'a generated database does not satisfy ConvTie.InFragmentX (hypothesis of converter_text_is_the_model / translation_text_is_the_model)'})
